@@ -549,7 +549,7 @@ def exhaustive_rot():
 
 def gen_cases(seed, tier):
     rng = random.Random(seed * 1000003 + 20)
-    n_route, n_rot = {'quick': (2500, 1200), 'thorough': (40000, 15000), 'search': (40000, 15000)}[tier]
+    n_route, n_rot = {'quick': (2500, 1200), 'thorough': (20000, 8000), 'search': (20000, 8000)}[tier]
     cases = [rand_route(rng) for _ in range(n_route)]
     cases += [rand_rot(rng) for _ in range(n_rot)]
     depths = (1, 2) if tier == 'quick' else (1, 2, 3, 4)
